@@ -404,6 +404,8 @@ def objects_tokens(rng_style, objs):
 
 def problem_tree(desc):
     otoks, _ = objects_tokens(desc["style"], desc["objects"])
+    if desc.get("object_tokens") is not None:
+        otoks = desc["object_tokens"]                      # an object section written in another way (object_section_cases)
     init = []
     for it in desc["init"]:
         if it[0] == "fact":
@@ -699,6 +701,24 @@ def build_generated(rng, tier):
     return worlds
 
 
+def object_section_worlds(seed, tier):
+    """generated domains with valid problems whose object section is written outside the grammar (own random stream)"""
+    rng = random.Random(seed * 7919 + 131)
+    worlds = []
+    for _ in range(8 if tier == "quick" else 60):
+        w = gen_domain(rng)
+        cases = []
+        for _ in range(2):
+            desc = gen_problem(rng, w, d07=False)
+            if not desc["objects"] or desc.get("shadow"):
+                continue
+            desc["objects"] = [list(o) for o in desc["arg_objects"]]
+            cases += object_section_cases(rng, w, desc)
+        if cases:
+            worlds.append({"domain_text": G.render(w.domain_tree(domain_name(w)), rng, noise=False), "cases": cases, "source": "generated"})
+    return worlds
+
+
 def boundary_cases(rng, w, cap):
     """the accept/reject boundary of the type check: one object per type (plus the constants), and single-item
     problems over EVERY argument tuple of every predicate / function (sampled down to cap per world); accepted iff
@@ -735,6 +755,376 @@ def boundary_cases(rng, w, cap):
         out.append({"text": text, "expect": expected_dump(desc) if (ok or numeric_goal) else "raised",
                     "kind": "type-boundary-%s-%s%s" % (kind, "goal-" if in_goal else "", "conforming" if ok else "foreign-type"),
                     "klass": "D19d" if (numeric_goal and not ok) else None, "nontrivial": True, "desc": desc})
+    return out
+
+
+# ------------------------------------------------------------------------------------------------ object sections outside the grammar
+# The parser accepts object lists that declare a name more than once (dict semantics: the first position, the LAST type)
+# and lists nested to any depth, with any head, in any place (each is a typed list of its own whose declarations take
+# effect where the list stands; names pending before it stay pending).  Spec/ProblemObjects.v says what such a section
+# means and Corr.C05 judges these texts by their normal form; the a-priori expectation below is computed here,
+# independently, from the declaration order (object_decls) and Python's own dict.
+LIST_HEADS = [":private", ":private", ":private", ":shared", "group"]
+
+
+def object_decls(toks):
+    """(the declarations (name, type) a nested token list makes, in the order in which they take effect; the types written
+    after a dash - also after a dash that closes no name); None when a dash is not followed by a type name"""
+    out, types, pending, i = [], [], [], 0
+    while i < len(toks):
+        t = toks[i]
+        if isinstance(t, list):
+            sub = object_decls(t[1:])
+            if sub is None:
+                return None
+            out += sub[0]
+            types += sub[1]
+            i += 1
+        elif t == "-":
+            if i + 1 >= len(toks) or isinstance(toks[i + 1], list):
+                return None
+            out += [(n, toks[i + 1]) for n in pending]
+            types.append(toks[i + 1])
+            pending = []
+            i += 2
+        else:
+            pending.append(t)
+            i += 1
+    return out + [(n, "object") for n in pending], types
+
+
+def nested_object_tokens(rng, objs, depth):
+    """a token list that declares objs with lists nested up to depth: a whole group inside a list, the names of a group
+    pending across a list that holds the next groups, trailing names without a type inside a list, an empty list"""
+    groups = []
+    for n, t in objs:
+        if groups and groups[-1][1] == t and rng.random() < 0.7:
+            groups[-1][0].append(n)
+        else:
+            groups.append(([n], t))
+    toks, i = [], 0
+    while i < len(groups):
+        ns, t = groups[i]
+        r = rng.random()
+        last = i == len(groups) - 1
+        if depth > 0 and r < 0.35 and not last:
+            k = rng.randint(1, min(2, len(groups) - i - 1))
+            inner = [(n, g[1]) for g in groups[i + 1:i + 1 + k] for n in g[0]]
+            cut = rng.randint(0, len(ns))
+            toks += ns[:cut] + [[rng.choice(LIST_HEADS)] + nested_object_tokens(rng, inner, depth - 1)] + ns[cut:] + ["-", t]
+            i += 1 + k
+        elif depth > 0 and r < 0.65:
+            toks.append([rng.choice(LIST_HEADS)] + nested_object_tokens(rng, [(n, t) for n in ns], depth - 1))
+            i += 1
+        else:
+            toks += ns if (t == "object" and last and rng.random() < 0.6) else ns + ["-", t]
+            i += 1
+        if depth > 0 and rng.random() < 0.1:
+            toks.append([rng.choice(LIST_HEADS)])                 # a list that declares nothing
+    return toks
+
+
+def expect_with_declarations(w, desc, decls):
+    """what parsing desc must give when its object section makes the declarations decls: 'raised' if a type is not declared
+    or some init / goal item is ill typed under the resulting table, else the dump with the table in dict order"""
+    if decls is None:
+        return "raised"
+    decls, written = decls
+    types = set(w.all_types())
+    if any(t not in types for t in written):
+        return "raised"
+    table = {}
+    for n, t in decls:
+        table[n] = t
+    env = dict(table)
+    env.update(dict(w.consts))                                   # a constant shadows an object of the same name
+    sigs = {"fact": dict(w.preds), "lit": dict(w.preds), "fluent": dict(w.funcs)}
+
+    def ok(kind, name, args):
+        ps = sigs[kind][name]
+        return len(args) == len(ps) and all(a in env and w.is_sub(env[a], pt) for a, (_, pt) in zip(args, ps))
+
+    def leaves_ok(t):
+        if isinstance(t, str):
+            return True
+        if t[0] in ("+", "-", "*", "/") or t[0] in CMPS:
+            return leaves_ok(t[1]) and leaves_ok(t[2])
+        return ok("fluent", t[0], t[1:])
+    for it in desc["init"]:
+        if not ok(it[0], it[1], it[2]):
+            return "raised"
+    for g in desc["goal"]:
+        if not (ok("lit", g[1], g[2]) if g[0] == "lit" else leaves_ok(g[1])):
+            return "raised"
+    d = expected_dump(desc)
+    d["objects"] = [[n, t] for n, t in table.items()]
+    return d
+
+
+def object_section_cases(rng, w, desc, n_each=1):
+    """variants of a valid (D07-free) problem whose object section is outside the grammar of the spec"""
+    objs = [tuple(o) for o in desc["objects"]]
+    if not objs:
+        return []
+    out = []
+    types = w.all_types()
+
+    def flat(decls):
+        toks = []
+        for n, t in decls:
+            toks += [n, "-", t]
+        return toks
+
+    def add(kind, toks):
+        d = copy_desc(desc)
+        d["object_tokens"] = toks
+        exp = expect_with_declarations(w, desc, object_decls(toks))
+        out.append({"text": G.render(problem_tree(d), rng, noise=False), "expect": exp,
+                    "kind": "objects-%s-%s" % (kind, "rejected" if exp == "raised" else "accepted"), "klass": None,
+                    "nontrivial": True, "desc": d})
+    for _ in range(n_each):
+        i = rng.randrange(len(objs))
+        n, t = objs[i]
+        others = [x for x in types if x != t]
+        # declared again with the same type, somewhere later
+        j = rng.randint(i + 1, len(objs))
+        add("redeclared-same-type", flat(objs[:j] + [(n, t)] + objs[j:]))
+        if others:
+            t2 = rng.choice(others)
+            # first another type, the real one later: the last declaration counts, the first position stays
+            add("redeclared-real-type-last", flat(objs[:i] + [(n, t2)] + objs[i + 1:] + [(n, t)]))
+            # the real type first, another one later: every item over the object is judged with the later type
+            add("redeclared-other-type-last", flat(objs + [(n, t2)]))
+            # ... the same inside one group and across a nested list
+            add("redeclared-in-nested-list", flat(objs[:i + 1]) + [[":private", n, "-", t2] + flat(objs[i + 1:])])
+            add("redeclared-nested-first", [[":private", n, "-", t2]] + flat(objs))
+        # a superseded declaration with an undeclared type: rejected although the table would be fine
+        add("redeclared-superseded-type-undeclared", flat(objs[:i] + [(n, "zz-undeclared-type")] + objs[i:]))
+        add("redeclared-in-one-group", [n, n, "-", t] + flat(objs[:i] + objs[i + 1:]))
+        # nested lists
+        add("nested-lists", nested_object_tokens(rng, objs, 3))
+        add("nested-lists", nested_object_tokens(rng, rng.sample(objs, len(objs)), 2))
+        add("nested-list-with-trailing-names", [[":private"] + [x for x, _ in objs]] if all(tt == "object" for _, tt in objs)
+            else flat([o for o in objs if o[1] != "object"]) + [[":private"] + [x for x, tt in objs if tt == "object"] + ["extra-untyped"]])
+        add("dash-without-names", ["-", t] + flat(objs))
+        add("dash-without-names-undeclared-type", flat(objs) + ["-", "zz-undeclared-type"])
+        add("nested-dash-without-type", flat(objs) + [[":private", "lonely", "-"]])
+    return out
+
+
+# ------------------------------------------------------------------------------------------------ several repeated arguments
+# Initial fluents that repeat TWO OR THREE different arguments (functions of arity 4-6).  PDDLFunction keeps the repeated
+# arguments in the dict repeating_variables and state_representation re-expands them in THAT dict's order, so the order in
+# which the parser enters them matters: it is the order of first occurrence (collections.Counter), never the iteration
+# order of a set of strings (which depends on PYTHONHASHSEED).  Each of these problems is therefore run under several
+# hash seeds.  canon_args / safe_fluents mirror Model/ProblemObs.v canon / safe_repeats; they only choose the arrangement
+# to generate and the finding id a 'k' verdict is attributed to - the verdict itself is computed in Coq.
+WIDE_SHAPES = {4: [(2, 2), (2, 2), (2, 2), (3, 1), (2, 1, 1)],
+               5: [(2, 2, 1), (2, 2, 1), (3, 2), (3, 2), (2, 1, 1, 1), (4, 1)],
+               6: [(2, 2, 2), (2, 2, 2), (3, 2, 1), (2, 2, 1, 1), (3, 3), (4, 2)]}
+PLAIN_OBJECT_NAMES = ["o0", "o1", "o2", "o3", "o4", "o5", "n1", "n2", "n3", "n4", "a", "b", "x", "y", "site", "silo", "gate-1",
+                      "gate_1", "k9", "zz", "m", "w", "q7", "unit", "dock"]
+
+
+def canon_args(args):
+    """what state_representation prints for a fluent read with these arguments: the repeated names first (in the order
+    of their first occurrence, each as often as it occurs), then the others"""
+    first = list(dict.fromkeys(args))
+    rep = [a for a in first if args.count(a) > 1]
+    return [a for a in rep for _ in range(args.count(a))] + [a for a in first if a not in rep]
+
+
+def safe_fluents(fluents):
+    """[(f, args)]: every fluent is written the way the library prints it and two fluents of one function with the same
+    distinct arguments (in the same order) are the same fluent"""
+    keys = {}
+    for f, a in fluents:
+        if canon_args(list(a)) != list(a):
+            return False
+        if keys.setdefault((f, tuple(dict.fromkeys(a))), tuple(a)) != tuple(a):
+            return False
+    return True
+
+
+def arrangements(shape):
+    """all distinct arrangements of the multiset with shape[i] copies of symbol i"""
+    import itertools
+    base = [i for i, m in enumerate(shape) for _ in range(m)]
+    return sorted(set(itertools.permutations(base)))
+
+
+def shape_name(shape):
+    return "x".join(str(m) for m in shape)
+
+
+def canonical_wide_args(rng, objs, shape):
+    """an arrangement inside safe_repeats: groups of repeated objects first, then the single ones"""
+    mults = list(shape)
+    rng.shuffle(mults)
+    mults = [m for m in mults if m > 1] + [m for m in mults if m == 1]
+    return [o for o, m in zip(objs, mults) for _ in range(m)]
+
+
+def multi_repeat_desc(rng, w, wide, pool, declared, mode, name, fixed=None):
+    """a valid problem whose :init holds fluents of the wide functions; mode 'canonical': inside safe_repeats;
+    'interleaved': arbitrary arrangements (mostly outside); fixed: [(function, args)] to use instead of drawn ones"""
+    init = []
+    atoms = G.ground_atoms(w, declared, w.preds)
+    rng.shuffle(atoms)
+    for p, args in atoms[:rng.randint(0, 3)]:
+        init.append(["fact", p, args])
+    narrow = [(f, ps) for f, ps in w.funcs if (f, ps) not in wide]
+    for f, ps in narrow:
+        if rng.random() < 0.5:
+            args = pick_args(rng, w, declared, ps, forbid_repeat=True)
+            if args is not None:
+                init.append(["fluent", f, args, rng.choice(NUMERALS)])
+    chosen = []
+    if fixed is not None:
+        chosen = [(f, list(a)) for f, a in fixed]
+    else:
+        for _ in range(rng.randint(2, 4) if mode == "canonical" else rng.randint(1, 3)):
+            f, ps = rng.choice(wide)
+            shape = rng.choice([sh for sh in WIDE_SHAPES[len(ps)] if len(sh) <= len(pool)])
+            objs = rng.sample(pool, len(shape))
+            if mode == "canonical":
+                args = canonical_wide_args(rng, objs, shape)
+                if not safe_fluents(chosen + [(f, args)]):
+                    continue
+            else:
+                base = [o for o, m in zip(objs, shape) for _ in range(m)]
+                for _ in range(4):
+                    rng.shuffle(base)
+                    if canon_args(base) != base:
+                        break
+                args = list(base)
+            chosen.append((f, args))
+    for f, args in chosen:
+        init.append(["fluent", f, args, rng.choice(NUMERALS)])
+    if mode == "canonical" and chosen and rng.random() < 0.3:
+        f, args = rng.choice(chosen)
+        init.append(["fluent", f, list(args), rng.choice(NUMERALS)])       # assigned twice: the last value counts
+    rng.shuffle(init)
+    goal = []
+    for p, args in atoms[:rng.randint(0, 2)]:
+        goal.append(["lit", p, args])
+    if w.funcs and rng.random() < 0.5:
+        f, ps = rng.choice(w.funcs)
+        args = pick_args(rng, w, declared, ps, forbid_repeat=True)
+        if args is not None:
+            goal.append(["num", [rng.choice(CMPS), [f] + args, rng.choice(GOAL_NUMERALS)]])
+    return {"name": name, "domain": domain_name(w), "twins": None, "objects": [list(o) for o in declared],
+            "arg_objects": [list(o) for o in declared], "style": rng.choice(["typed", "grouped"]), "init": init, "goal": goal,
+            "shadow": False}
+
+
+def multi_repeat_case(rng, desc, kind):
+    fl = [(it[1], it[2]) for it in desc["init"] if it[0] == "fluent"]
+    safe = safe_fluents(fl)
+    n_multi = sum(1 for _, a in fl if sum(1 for x in set(a) if a.count(x) > 1) >= 2)
+    return {"text": G.render(problem_tree(desc), rng, noise=False), "expect": expected_dump(desc),
+            "kind": "several-repeats-%s-%s" % (kind, "safe" if safe else "collapsing"), "klass": None if safe else "D07",
+            "nontrivial": True, "desc": desc, "fluents_repeating_two_or_more_arguments": n_multi}
+
+
+def multi_repeat_world(rng, tier, enumerate_shape=False):
+    """a generated domain with two functions of arity 4-6 whose parameters all admit the objects of one type, and problems
+    over them: canonical (inside safe_repeats), interleaved, and - enumerate_shape - every arrangement of one shape"""
+    w = gen_domain(rng)
+    ts = w.all_types()
+    base = rng.choice(ts)
+    ups = w.ancestors(base)
+    downs = [t for t in ts if w.is_sub(t, base)]
+    wide = []
+    for ar in [4, rng.choice([5, 6])]:
+        ps = [("?w%d" % k, rng.choice(ups)) for k in range(ar)]
+        w.funcs.append(("wf%d" % ar, ps))
+        wide.append(w.funcs[-1])
+    names = list(w.objmap.values()) if getattr(w, "objmap", None) else rng.sample(PLAIN_OBJECT_NAMES, 8)
+    rng.shuffle(names)
+    n_pool = rng.randint(3, 5)
+    pool_objs = [(names[i], rng.choice(downs)) for i in range(n_pool)]
+    declared = pool_objs + [(names[n_pool + i], rng.choice(ts)) for i in range(rng.randint(0, 2))]
+    rng.shuffle(declared)
+    pool = [n for n, _ in pool_objs] + [n for n, t in w.consts if t in downs]
+    cases = []
+    modes = ["canonical", "canonical", "interleaved", "interleaved"] if tier == "quick" else \
+        ["canonical", "canonical", "canonical", "interleaved", "interleaved", "interleaved"]
+    for i, mode in enumerate(modes):
+        cases.append(multi_repeat_case(rng, multi_repeat_desc(rng, w, wide, pool, declared, mode, "rep%d" % i), mode))
+    if enumerate_shape:
+        f, ps = rng.choice(wide)
+        shape = rng.choice([sh for sh in WIDE_SHAPES[len(ps)] if len(sh) <= len(pool) and sum(1 for m in sh if m > 1) >= 2])
+        objs = rng.sample(pool, len(shape))
+        arr = arrangements(shape)
+        if tier == "quick" and len(arr) > 8:
+            arr = rng.sample(arr, 8)
+        for j, a in enumerate(arr):
+            d = multi_repeat_desc(rng, w, wide, pool, declared, "interleaved", "enum%d" % j, fixed=[(f, [objs[k] for k in a])])
+            cases.append(multi_repeat_case(rng, d, "every-arrangement-of-" + shape_name(shape)))
+    return {"domain_text": G.render(w.domain_tree(domain_name(w)), rng, noise=False), "cases": cases, "source": "generated"}
+
+
+WIDE_DOMAIN = ("(define (domain grid) (:requirements :typing :fluents) (:types site - object hub - site) (:constants main - hub) "
+               "(:predicates (joined ?a - site ?b - site)) "
+               "(:functions (cap4 ?a - site ?b - site ?c - site ?d - site) (cap5 ?a - site ?b - site ?c - site ?d - site ?e - site) "
+               "(cap6 ?a - object ?b - object ?c - object ?d - site ?e - object ?f - object) (load ?a - site)) "
+               "(:action join :parameters (?a - site ?b - site) :precondition (and (joined ?b ?a)) :effect (and (joined ?a ?b))))")
+
+
+def wide_hand_world():
+    """all six arrangements of two objects twice each (one problem each), problems with several fluents in the printed
+    form over different pairs / triples of objects (inside safe_repeats), and interleavings of three repeated objects"""
+    declared = [["s1", "site"], ["s2", "site"], ["s3", "site"], ["hub-a", "hub"], ["hub_a", "hub"]]
+
+    def D(name, fluents, facts=()):
+        init = [["fact", "joined", list(a)] for a in facts]
+        init += [["fluent", f, list(a), v] for f, a, v in fluents]
+        return {"name": name, "domain": "grid", "twins": None, "objects": declared, "arg_objects": declared, "style": "grouped",
+                "init": init, "goal": [["lit", "joined", ["s1", "s1"]], ["num", [">=", ["load", "s2"], "2"]]], "shadow": False}
+    descs = []
+    for j, a in enumerate(arrangements((2, 2))):
+        descs.append(("two-by-two-arrangement-%d" % j, D("arr%d" % j, [("load", ["s1"], "3"), ("cap4", [["s1", "s2"][k] for k in a], "1.5")],
+                                                         [("s1", "s2")])))
+    descs.append(("printed-forms-of-several-pairs", D("pairs", [
+        ("cap4", ["s1", "s1", "s2", "s2"], "1.5"), ("cap4", ["s2", "s2", "s1", "s1"], "2.5"), ("cap4", ["s3", "s3", "hub-a", "hub-a"], "3.5"),
+        ("cap4", ["hub_a", "hub_a", "s3", "s3"], "4.5"), ("cap4", ["main", "main", "s1", "s1"], "5.5"), ("load", ["s1"], "0"),
+        ("cap4", ["hub-a", "hub-a", "hub_a", "hub_a"], "6.5"), ("cap4", ["s2", "s2", "s3", "s3"], "7.5")], [("s2", "s2")])))
+    descs.append(("printed-forms-of-arity-5-and-6", D("wide", [
+        ("cap5", ["s1", "s1", "s2", "s2", "s3"], "1"), ("cap5", ["s2", "s2", "s2", "s1", "s1"], "2"),
+        ("cap5", ["hub-a", "hub-a", "s3", "s3", "s3"], "3"), ("cap6", ["s1", "s1", "s2", "s2", "s3", "s3"], "4"),
+        ("cap6", ["s3", "s3", "s3", "s2", "s2", "s1"], "5"), ("cap6", ["main", "main", "hub_a", "hub_a", "s1", "s2"], "6"),
+        ("cap6", ["s2", "s2", "s2", "s2", "s1", "s1"], "7")])))
+    descs.append(("three-objects-interleaved", D("inter", [("cap6", ["s1", "s2", "s3", "s1", "s2", "s3"], "1"),
+                                                            ("cap5", ["s3", "s1", "s1", "s2", "s2"], "2")])))
+    descs.append(("printed-form-and-its-interleaving", D("both", [("cap4", ["s1", "s1", "s2", "s2"], "1"),
+                                                                   ("cap4", ["s1", "s2", "s1", "s2"], "2")])))
+    rng = random.Random(0)
+    return {"domain_text": WIDE_DOMAIN, "source": "hand",
+            "cases": [multi_repeat_case(rng, d, "hand-" + k) for k, d in descs]}
+
+
+def hash_seeds(seed, tier):
+    """the PYTHONHASHSEEDs under which every problem of multi_repeat_worlds is run"""
+    return [(seed * 13 + 7 * k) % 4000 + (1 if k else 0) for k in range(3 if tier == "quick" else 6)]
+
+
+def multi_repeat_worlds(seed, tier):
+    """worlds with fluents repeating two or three different arguments; generated from their own random stream"""
+    rng = random.Random(seed * 7919 + 77)
+    n = 6 if tier == "quick" else 24
+    return [wide_hand_world()] + [multi_repeat_world(rng, tier, enumerate_shape=(i % 3 == 0)) for i in range(n)]
+
+
+def under_hash_seeds(worlds, seeds):
+    """one copy of every world per hash seed (the 'hashseed' key selects the interpreter it is run in)"""
+    out = []
+    for hs in seeds:
+        for w in worlds:
+            w2 = dict(w)
+            w2["hashseed"] = hs
+            w2["cases"] = [dict(c) for c in w["cases"]]
+            out.append(w2)
     return out
 
 
@@ -854,6 +1244,30 @@ def sequence_world():
             "source": "hand"}
 
 
+def same_path_world():
+    """one Domain object and ONE file path for five problems in one process: a long text, a short one, one of exactly the
+    same size as the short one with other content, one with empty sections, the long one again with other values.  A
+    reader that keeps anything per path (or per path and size), or a writer that leaves the tail of a longer file, shows
+    as a result that belongs to an earlier problem.  (C09 runs the same texts with one ProblemExporter object and one
+    export path.)"""
+    O = "o0 o1 - t1 o2 - t2 o3 o4"
+
+    def P(name, init, goal, objs=O):
+        return "(define (problem %s) (:domain dom) (:objects %s) (:init %s) (:goal (and %s)))" % (name, objs, init, goal)
+
+    def long_(a, b, c):
+        return P("long", "(p0 o0) (p1 o0 o1) (z) (q o2) (= (f0 o0) %s) (= (f2 o0 o1) %s) (= (f2 o1 o1) 0.1) (= (g3 o3 o4 c0) 7) (= (h) %s)" % (a, b, c),
+                 "(p0 o1) (p1 o1 o0) (>= (f0 o1) 1) (< (+ (h) (f2 o0 o1)) 3)")
+    texts = [("long-text", long_("2.5", "-3", "1e3")),
+             ("short-text", P("shrt", "(p0 o0) (= (f0 o0) 1)", "(p0 o1)")),
+             ("same-size-other-content", P("shrt", "(p0 o1) (= (f0 o1) 2)", "(p0 o0)")),
+             ("empty-sections", P("none", "", "", objs="")),
+             ("long-text-other-values", long_("0.5", "42", "-1"))]
+    assert len(texts[1][1]) == len(texts[2][1])
+    return {"domain_text": HAND_DOMAIN, "source": "hand", "same_path": True, "reuse": True,
+            "cases": [{"text": t, "expect": None, "kind": "same-path-" + k, "klass": None, "nontrivial": True} for k, t in texts]}
+
+
 def finding_worlds():
     out = []
     for f in load_findings(PROP):
@@ -886,6 +1300,18 @@ def fixture_worlds(tier):
     return out, len(fx["pairs"]), n_skipped
 
 
+def run_grouped(worlds, jobs, hashseed):
+    """runs job i in an interpreter started with PYTHONHASHSEED = worlds[i]["hashseed"] (default: hashseed)"""
+    groups = {}
+    for i, w in enumerate(worlds):
+        groups.setdefault(w.get("hashseed", hashseed), []).append(i)
+    results = [None] * len(jobs)
+    for hs, idx in groups.items():
+        for i, r in zip(idx, run_impl([jobs[i] for i in idx], hashseed=hs)):
+            results[i] = r
+    return results
+
+
 def run_worlds(worlds, hashseed=0):
     jobs = []
     for w in worlds:
@@ -894,8 +1320,10 @@ def run_worlds(worlds, hashseed=0):
             job["domain_path"] = w["domain_path"]
         else:
             job["domain_text"] = w["domain_text"]
+        if w.get("same_path"):
+            job["same_path"] = True
         jobs.append(job)
-    return run_impl(jobs, hashseed=hashseed)
+    return run_grouped(worlds, jobs, hashseed)
 
 
 KEYWORDS = ["and", "or", "not", "forall", "exists", "imply", "when", "=", "<=", ">=", "<", ">", "+", "-", "*", "/",
@@ -934,7 +1362,9 @@ def run(args):
         worlds[0]["cases"] = [{"text": t, "expect": None, "kind": "parsed-before", "klass": k, "nontrivial": False}
                               for t, k in before] + worlds[0]["cases"]
     else:
-        worlds = finding_worlds() + [sequence_world(), hand_world()] + build_generated(rng, args.tier)
+        worlds = finding_worlds() + [sequence_world(), same_path_world(), hand_world()] + build_generated(rng, args.tier)
+        worlds += under_hash_seeds(multi_repeat_worlds(args.seed, args.tier), hash_seeds(args.seed, args.tier))
+        worlds += object_section_worlds(args.seed, args.tier)
         fw, n_fixture_total, n_fixture_skipped = fixture_worlds(args.tier)
         worlds += fw
     results = run_worlds(worlds, hashseed=args.seed % 7)
